@@ -367,3 +367,23 @@ class LlcEvModel(object):
 
     def run(self, terminate=None):
         EVENTS.append('run')
+
+
+class IsoWtxInChainScriptClf(object):
+    """script: the card answers a single-block command with a chained response and asks for a waiting time
+    extension between the two response blocks (ISO/IEC 14443-4 allows S(WTX) whenever the card needs more time)"""
+    def __init__(self, pni, first, second):
+        self.pni, self.first, self.second = pni, first, second
+        self.n = 0
+
+    def exchange(self, data, timeout):
+        self.n = self.n + 1
+        if self.n == 1:
+            return bytearray([0x12 | self.pni]) + self.first                  # I-block, chaining
+        if self.n == 2:
+            require(bytes(data) == bytes([0xA2 | (1 - self.pni)]), 'R(ACK) with the toggled block number')
+            return bytearray([0xF2, 0x01])                                     # S(WTX) request
+        if self.n == 3:
+            require(bytes(data) == bytes([0xF2, 0x01]), 'S(WTX) response echoing the request')
+            return bytearray([0x02 | (1 - self.pni)]) + self.second           # last I-block
+        require(False, 'no further block after the response')
